@@ -493,6 +493,9 @@ theorem langUpdate_frame (expr : Bytes) (item item' : Item) (names : List (Bytes
       ∀ a ∈ acts, ∀ op left right, a = Expr.action op left right → ∀ n, targetOf env left = some n → env.itemName n ≠ name) :
     alookup name item' = alookup name item := by
   unfold Interp.langUpdate at h
+  split at h
+  · cases h
+  unfold Interp.langUpdateCore at h
   cases hp : Parser.parseUpdate expr with
   | syntaxErr => simp [hp] at h
   | outOfFuel => simp [hp] at h
